@@ -273,8 +273,52 @@ def h08d(c):
         c.cover("resettled")
 
 
+K_SIZES = [1.0, 2.0, 6.0, 9.0]
+
+
+def h08k(c, n_max=3):
+    """what the exchange pays on the FILLS: an order filled in up to n_max pieces through the real SimulatedOrder._update_matched
+    (sizes from a concrete set, every price symbolic), then settled as a winner/loser: the reported average is the volume-weighted
+    average of the fills to within the half cent of its one rounding, and profit is the sum over the fills to within that half cent
+    times the matched size (plus the half cent of profit's own rounding)"""
+    with cm.config_set(simulated=True):
+        fl, (client,), (strategy,) = cm.new_sim()
+        market = cm.add_market(fl, cm.book([cm.runner(1), cm.runner(2)]))
+        side = c.choose("side", ["BACK", "LAY"])
+        n = c.choose("n_fills", list(range(1, n_max + 1)))
+        sizes = [c.choose("s%d" % i, K_SIZES) for i in range(n)]
+        prices = [c.cents("p%d" % i, 101, 100000) for i in range(n)]
+        tot = sum(sizes)
+        o = cm.mk_limit(strategy, side, 2.0, tot)
+        o.update_client(client)
+        market.blotter[o.id] = o
+        with c.guard("fills"):
+            for i in range(n):
+                o.simulated._update_matched([cm.T0_MS + i, prices[i], sizes[i]])
+        sim = o.simulated
+        c.ob("fills-recorded", len(sim.matched) == n)
+        c.ob("size_matched=sum(fills)", sim.size_matched == tot)
+        a = cm.total([prices[i] * sizes[i] for i in range(n)])
+        apm = sim.average_price_matched
+        c.observe("average_price_matched", apm)
+        c.ob("average=vwap(fills) to the half cent", c.And(apm * tot - a <= HALF * tot, a - apm * tot <= HALF * tot))
+        status = c.choose("runner_status", ["WINNER", "LOSER"])
+        c.tag("side", side); c.tag("n", n); c.tag("status", status)
+        bk = _close_book(c, {(1, 0): status}, "WIN", None, 0)
+        with c.guard("process_closed_market"):
+            market.blotter.process_closed_market(market, bk)
+        with c.guard("profit"):
+            p = o.profit
+        c.observe("profit", p)
+        paid = (a - tot) if status == "WINNER" else -tot
+        c.ob("profit=sum-over-fills", c.close(p, _sgn(side, paid), HALF * tot + HALF))
+        if n >= 3:
+            c.cover("three-fills")
+        c.cover("settled")
+
+
 OUT = ["each-way dead heats and multi-winner dead heats (flumine logs them as unhandled)",
-       "the relation between average_price_matched and the individual fills (half a cent of the average times the matched size): wap is checked in C05/H05c",
+       "the relation between average_price_matched and the individual fills beyond H08k (up to 3/4 fills, fill sizes from {1, 2, 6, 9}, every price)",
        "more than 2 orders per client"]
 from .c18 import h18c as _h18c  # noqa: E402
 
@@ -283,6 +327,7 @@ HARNESSES = [
     Harness("H08a-S", h08a, quick=dict(mode="S"), pattern="P1 kernel-with-oracle", requires=["settled", "line-tie", "dead-heat", "each-way", "unmatched"], outside=OUT),
     Harness("H08a-P", h08a, quick=dict(mode="P"), pattern="P1 kernel-with-oracle", requires=["settled", "dead-heat", "each-way"], outside=OUT),
     Harness("H08f", h08f, pattern="P3 short history (real middleware re-states the matched size, then settlement)", requires=["rescaled-then-settled"], outside=OUT),
+    Harness("H08k", h08k, quick=dict(n_max=3), thorough=dict(n_max=4), pattern="P1 kernel-with-oracle (real _update_matched per fill, then settlement)", requires=["settled", "three-fills"], outside=OUT),
     Harness("H08c", h08c, pattern="P1 kernel-with-oracle", requires=["assigned"], outside=OUT),
     Harness("H08d", h08d, pattern="P3 short history", requires=["resettled", "amended-result"], outside=OUT),
     Harness("H08b", h08b, quick=dict(n_orders=2), thorough=dict(n_orders=3), pattern="P1 kernel-with-oracle", requires=["cleared"], outside=OUT),
